@@ -34,6 +34,7 @@ func (f *linForm) add(g *linForm, coef int64) {
 		}
 	}
 }
+
 // addSum adds sum(field: inner): split term by term, the constant part counted once per element
 // (sum(F: a + k) = sum(F: a) + k*len(F)), so that a loop that adds 4 + x.len() per element and one that adds x.len() after
 // 4*len(F) read the same.
